@@ -1,4 +1,4 @@
-import Eru.Store.Ref
+import Eru.Store.ProofsKV
 /-
 C23 — the etcd and Redis metadata stores behave identically; a failing create leaves the
 store unchanged.
@@ -98,58 +98,13 @@ theorem run_deterministic (fl : Flavour) (s : St) (ops : List Op) :
     ∀ r₁ r₂, r₁ = run fl s ops → r₂ = run fl s ops → r₁ = r₂ := by
   intro r₁ r₂ h₁ h₂; rw [h₁, h₂]
 
-/-- on success `BatchCreate` wrote exactly the requested keys: every requested key is present -/
-theorem has_putAll_of_mem (m : KV) (data : List (Key × Val)) (k : Key)
-    (hk : k ∈ data.map (·.1)) : (m.putAll data).has k = true := by
-  induction data generalizing m with
-  | nil => simp at hk
-  | cons kv t ih =>
-    obtain ⟨k', v⟩ := kv
-    simp only [KV.putAll]
-    by_cases hin : k ∈ t.map (·.1)
-    · exact ih _ hin
-    · have hk' : k = k' := by
-        simp only [List.map_cons, List.mem_cons] at hk
-        rcases hk with h | h
-        · exact h
-        · exact absurd h hin
-      subst hk'
-      clear ih hk
-      -- later puts do not touch k
-      have key : ∀ (t : List (Key × Val)) (m : KV), k ∉ t.map (·.1) → m.has k = true → (m.putAll t).has k = true := by
-        intro t
-        induction t with
-        | nil => intro m _ h; exact h
-        | cons kv t ih2 =>
-          intro m hn h
-          obtain ⟨k2, v2⟩ := kv
-          simp only [List.map_cons, List.mem_cons, not_or] at hn
-          simp only [KV.putAll]
-          apply ih2 _ hn.2
-          simp only [KV.put, KV.has, KV.get]
-          have hne : ¬ k2 = k := fun h => hn.1 h.symm
-          simp only [hne, ↓reduceIte]
-          -- erase of another key keeps k
-          have er : ∀ (m : KV), KV.get (KV.erase m k2) k = KV.get m k := by
-            intro m
-            induction m with
-            | nil => rfl
-            | cons p m ihm =>
-              obtain ⟨k3, e3⟩ := p
-              simp only [KV.erase]
-              by_cases h32 : k3 = k2
-              · simp only [h32, ↓reduceIte, KV.get, hne]; exact ihm
-              · simp only [h32, ↓reduceIte, KV.get, ihm]
-          rw [er]; exact h
-      apply key t _ hin
-      simp [KV.put, KV.has, KV.get]
-
+/-- on success `BatchCreate` wrote the requested keys: every requested key is present -/
 theorem create_success_writes_all (s s' : St) (data : List (Key × Val))
     (h : batchCreate s data = .ok s') : ∀ k ∈ data.map (·.1), s'.kv.has k = true := by
   intro k hk
   unfold batchCreate at h
   split at h
   · cases h
-  · cases h; exact has_putAll_of_mem _ _ _ hk
+  · cases h; exact KV.has_putAll_of_mem _ _ _ hk
 
 end Eru.Props.C23
